@@ -38,7 +38,7 @@ old = json.load(open(f"{dst}/meta.json")) if os.path.exists(f"{dst}/meta.json") 
 meta = {
     "breaks": p,
     "summary": orig.get("summary"),
-    "needs_to_manifest": orig.get("what_it_needs_to_manifest"),
+    "needs_to_manifest": orig.get("what_it_needs_to_manifest") or orig.get("needs_to_manifest"),
     "files_changed": orig.get("files_changed"),
     "origin": "independent sub-agent given only the property text and a scratch worktree",
     "confirmed_by_me": {
